@@ -45,7 +45,8 @@ Init == /\ \/ objs = [nm \in Names |-> IF nm = "a" THEN [kind |-> "consumer", ar
               /\ owner = <<>> /\ nextid = 1 /\ scen = "builder"
         /\ handed = <<>> /\ clones = 0 /\ err = FALSE /\ hist = <<>>
 
-Log(op, nm) == hist' = Append(hist, [op |-> op, o |-> nm]) /\ UNCHANGED scen
+LogJ(op, nm, j) == hist' = Append(hist, [op |-> op, o |-> nm, j |-> j]) /\ UNCHANGED scen
+Log(op, nm) == LogJ(op, nm, 0)
 Set(nm, o) == objs' = [objs EXCEPT ![nm] = o]
 
 \* ArrayConsumer::next / next_back: assume_init_read of array[taken_front] / array[N - taken_back - 1]
@@ -78,6 +79,15 @@ Clone(nm, to) == LET o == objs[nm] w == Window(o) k == Len(Window(o)) IN
     /\ owner' = [id \in (DOMAIN owner) \cup {nextid + q - 1 : q \in 1..k} |-> IF id \in DOMAIN owner THEN owner[id] ELSE to]
     /\ nextid' = nextid + k /\ clones' = clones + 1 /\ Log("clone", nm) /\ UNCHANGED handed
 
+\* Clone where T::clone panics on the (j+1)-th element: the half-built clone is dropped while unwinding.
+\* Consumer: `this.array[i] = ..; this.taken_back -= 1` keeps the window = the j clones written so far;
+\* Builder: `this.push(clone)` likewise.  So exactly the j fresh values are dropped, the source is untouched.
+ClonePanic(nm, j) == LET o == objs[nm] w == Window(o) IN
+    /\ o.kind \in {"consumer", "builder"} /\ clones < MaxClones /\ j < Len(w)
+    /\ err' = (err \/ ~AllOwned(nm, w))
+    /\ owner' = [id \in (DOMAIN owner) \cup {nextid + q - 1 : q \in 1..j} |-> IF id \in DOMAIN owner THEN owner[id] ELSE "dropped"]
+    /\ nextid' = nextid + j /\ clones' = clones + 1 /\ LogJ("clone_panic", nm, j) /\ UNCHANGED <<objs, handed>>
+
 \* Drop: slice_from_raw_parts_mut(ptr.add(taken_front), slice_len).drop_in_place()  |  (ptr, inited)
 DropObj(nm) == LET o == objs[nm] w == Window(o) IN
     /\ o.kind \in {"consumer", "builder"}
@@ -106,6 +116,7 @@ BBuild(nm) == LET o == objs[nm] IN
 Next == \E nm \in Names :
           \/ CNext(nm) \/ CNextBack(nm) \/ CNone(nm) \/ DropObj(nm) \/ CAssertEmpty(nm) \/ BPush(nm) \/ BBuild(nm)
           \/ \E to \in Names \ {nm} : Clone(nm, to)
+          \/ \E j \in 0..(N - 1) : ClonePanic(nm, j)
 Spec == Init /\ [][Next]_vars
 
 -----------------------------------------------------------------------------
